@@ -651,11 +651,7 @@ func key2name(name string) string {
 }
 
 func fixKey(k string) string {
-	i := strings.LastIndex(k, "/")
-	if i >= 0 {
-		k = k[:i] + "_" + k[i+1:]
-	}
-	return k
+	return strings.ReplaceAll(k, "/", "_")
 }
 
 // REPL performs a Read-Eval-Print-Loop on input reader.
